@@ -826,3 +826,40 @@ def qudit_blind_dispatch_rule(ctx, rid: str, prefixes, floor: int = 2):
                    f'`{ast.unparse(c)[:70]}` also matches the qudit gate {which[0]}(dimension=d); the function never looks at the dimension, so what it concludes for the qubit Pauli '
                    '(period 2, self-inverse, bit flip, a named qubit gate) is applied to a shift / clock gate', m.rel, c.lineno)
     return n
+
+
+# ---------------------------------------------------------------------------------------------------------------------
+# Circuit.prev_moment_operating_on / next_moment_operating_on answer "when is this *qubit* busy".  An operation may also be
+# tied to another one through a measurement key (a classical control must stay behind the measurement it reads, and a
+# re-measurement of the key behind the control).  Circuit.earliest_available_moment takes both into account.
+def placement_query_rule(ctx, rid: str, prefixes, floor: int = 1):
+    repo = ctx.repo
+    ctx.rule(rid, 'key-aware scheduling: a transformer that computes where an operation may be placed asks Circuit.earliest_available_moment (qubits, measurement keys and control keys); '
+             'the qubit-only queries prev_moment_operating_on / next_moment_operating_on are used for that only when a statement that uses their answer also consults the keys of the operation '
+             '(measurement_key_objs / control_keys / is_measurement) - otherwise operations ordered only through a measurement key overtake each other', floor=floor, style='RG')
+    KEYS = {'measurement_key_objs', 'measurement_key_names', 'control_keys', 'is_measurement', 'measurement_keys_touched'}
+    for m in sorted(repo.modules.values(), key=lambda x: x.rel):
+        if not m.rel.startswith(tuple(prefixes)) or m.rel.endswith('_test.py') or '/testing/' in m.rel or '/contrib/' in m.rel:
+            continue
+        for fn in [f for f in ast.walk(m.tree) if isinstance(f, (ast.FunctionDef, ast.AsyncFunctionDef))]:
+            k = 0
+            for c in ast.walk(fn):
+                if not (isinstance(c, ast.Call) and isinstance(c.func, ast.Attribute)):
+                    continue
+                if c.func.attr == 'earliest_available_moment':
+                    k += 1
+                    ctx.ob(rid, f'{m.name}.{fn.name}:placement#{k}:earliest_available_moment', True, '', m.rel, c.lineno)
+                elif c.func.attr in ('prev_moment_operating_on', 'next_moment_operating_on'):
+                    k += 1
+                    # the keys must enter the same placement decision: the statement that takes the qubit-only answer also takes a key-based one
+                    st = c
+                    par = m.parents()
+                    while st in par and not isinstance(st, ast.stmt):
+                        st = par[st]
+                    res = {t.id for t in ast.walk(st) if isinstance(t, ast.Name) and isinstance(t.ctx, ast.Store)}
+                    users = [s2 for s2 in ast.walk(fn) if isinstance(s2, ast.stmt) and not isinstance(s2, (ast.FunctionDef, ast.For, ast.While, ast.If, ast.With, ast.Try))
+                             and ({x.id for x in ast.walk(s2) if isinstance(x, ast.Name) and isinstance(x.ctx, ast.Load)} & res)] + [st]
+                    ok = any(({x.attr for x in ast.walk(u) if isinstance(x, ast.Attribute)} | {x.id for x in ast.walk(u) if isinstance(x, ast.Name)}) & KEYS for u in users)
+                    ctx.ob(rid, f'{m.name}.{fn.name}:placement#{k}:{c.func.attr}', ok, '' if ok else
+                           f'`{ast.unparse(c)[:80]}` schedules by qubits alone and the function never looks at measurement / control keys: a classically controlled operation and a '
+                           're-measurement of its key on other qubits can swap places', m.rel, c.lineno)
